@@ -131,3 +131,56 @@ for _c in NAMES:
               functions=[(RFC, "generate_k"), (RFC, "bits2int"), (RFC, "bits2octets"), (UTIL, "number_to_string"),
                          (UTIL, "number_to_string_crop"), (UTIL, "bit_length")],
               family=fam_k(_c, _h))(_p)
+
+
+# ---------------------------------------------------------------------------------------
+# FIPS 186-4 6.4: e = the leftmost min(N, outlen) bits of the digest, N = bit length of the ORDER (not of the field prime)
+
+KEYS = "register_crypto_plugin.ecdsa.keys"
+DLENS = (20, 28, 32, 48, 64, 66)
+
+
+def fam_trunc(cname, dl):
+    def fam(seed, tier):
+        import random
+        rnd = random.Random(seed + dl)
+        for _ in range(2 if tier == "quick" else 10):
+            yield dict(d=bytes(rnd.randrange(256) for _ in range(dl)), allow=True)
+        yield dict(d=b"\xff" * dl, allow=True)
+        yield dict(d=bytes(rnd.randrange(256) for _ in range(dl)), allow=False)
+    return fam
+
+
+def _trunc(vc, cname, dl):
+    K = vc.module(KEYS)
+    C = vc.module(CURVES)
+    curve = getattr(C, cname)
+    q = curve.order
+    qlen = q.bit_length()
+    d = vc.bytes("d", dl)
+    allow = vc.bool("allow")
+    out = vc.call(K._truncate_and_convert_digest, d, curve, allow)
+    rlen = (qlen + 7) // 8
+    if not allow and dl > rlen:
+        vc.prove("no-truncation-allowed=>BadDigestError", out.raised(K.BadDigestError), repr(out.exc))
+        return
+    vc.prove("returns", out.returned, repr(out.exc))
+    if not allow and 8 * dl > qlen:
+        # a digest that fits the order's BYTE length but has more BITS than the order, used without truncation: only
+        # possible with non-standard digest sizes (e.g. 66 bytes on P-521); the library then uses the digest as it is.
+        # No hash of the property's family (SHA-1 .. SHA-512) gets here; nothing is claimed.
+        vc.cover("non-standard-digest-size-without-truncation")
+        return
+    if out.returned:
+        v = models.IntModel.from_bytes(d, "big") if vc.symbolic else int.from_bytes(d, "big")
+        want = v // (1 << (8 * dl - qlen)) if 8 * dl > qlen else v
+        vc.prove("e=leftmost-min(qlen,8*len)-bits-of-the-digest", out.value == want)
+        vc.cover("converted")
+
+
+for _c in NAMES:
+    for _dl in DLENS:
+        def _p(vc, _c=_c, _dl=_dl):
+            _trunc(vc, _c, _dl)
+        proof("C18/digest-to-int[%s,%d]" % (_c, _dl), functions=[(KEYS, "_truncate_and_convert_digest")],
+              family=fam_trunc(_c, _dl))(_p)
